@@ -4,3 +4,18 @@ impl String {
     #[verifier::external_body]
     pub fn from_str(e: &Env, s: &str) -> (r: Self) { unimplemented!() }
 }
+
+pub open spec fn fn_update_wasm() -> int { str_code("update_current_contract_wasm"@) }
+/// the log entry that stands for `e.deployer().update_current_contract_wasm(hash)`
+pub open spec fn wasm_update_call(w: World, hash: Seq<u8>) -> Call {
+    Call { callee: w.this, func: fn_update_wasm(), args: seq![SV::Bytes(hash)], ret: SV::Void, ok: true }
+}
+impl Env {
+    /// `e.deployer().update_current_contract_wasm(hash)` (needs fragment bytes): the host swaps this contract's executable
+    /// for the following invocations; contract storage, authorizations and contract events are untouched.  The swap is
+    /// recorded in the call log (as a call of the contract on itself) so that the installed hash is observable.
+    #[verifier::external_body]
+    pub fn deployer_update_current_contract_wasm(&mut self, hash: BytesN<32>)
+        ensures final(self)@ == (World { calls: old(self)@.calls.push(wasm_update_call(old(self)@, hash@)), ..old(self)@ }),
+    { unimplemented!() }
+}
